@@ -129,6 +129,10 @@ pub struct Plan {
     /// objects must not leak from one curve into the other)
     #[serde(default)]
     pub sibling: bool,
+    /// also reach every order through a detour over another order WITHOUT any look-up in
+    /// between (two switches back to back, then the probe)
+    #[serde(default)]
+    pub silent_detours: bool,
 }
 
 pub fn query_ndt(ts: i64, ns: u32) -> NaiveDateTime {
@@ -172,6 +176,9 @@ pub fn generate_with(rng: &mut Rng, tier: Tier, allow_null: bool) -> Plan {
         1 => rng.i64_in(-400, 400),       // around the epoch
         2 => rng.i64_in(11_500, 11_580),  // around 2001-09-09 (timestamp digit count changes)
         3 => rng.i64_in(120_000, 200_000), // 2298..2517
+        // around and beyond year 9999, before year 1
+        4 if rng.chance(0.5) => rng.i64_in(2_925_000, 2_940_000),
+        4 => rng.i64_in(-760_000, -719_000),
         _ => rng.i64_in(10957, 10957 + 3650),
     };
     let mut days = vec![start_day];
@@ -182,8 +189,11 @@ pub fn generate_with(rng: &mut Rng, tier: Tier, allow_null: bool) -> Plan {
             2 => rng.i64_in(121, 1500),
             _ => rng.i64_in(1501, 10950),
         };
+        // rarely an interval of more than 2^32 seconds (136 years)
+        let gap = if !large && rng.chance(0.01) { rng.i64_in(49_800, 75_000) } else { gap };
         let next = days.last().unwrap() + gap;
-        days.push(next.min(10957 + 22000 + days.len() as i64));
+        let cap = if gap > 40_000 { i64::MAX } else { start_day.max(10957) + 22000 + days.len() as i64 };
+        days.push(next.min(cap).max(days.last().unwrap() + 1));
     }
     days.dedup();
     let n = days.len();
@@ -319,12 +329,12 @@ pub fn generate_with(rng: &mut Rng, tier: Tier, allow_null: bool) -> Plan {
         for _ in 0..3 {
             let k = rng.log_uniform(5.0, 400.0);
             let after = nodes[n - 1].ts as f64 + k * gl as f64;
-            if after.abs() < 2.0e11 {
+            if after.abs() < 4.0e12 {
                 queries.push(after as i64);
             }
             if interp == "log_linear" {
                 let before = nodes[0].ts as f64 - k * g0 as f64;
-                if before.abs() < 2.0e11 {
+                if before.abs() < 4.0e12 {
                     queries.push(before as i64);
                 }
             }
@@ -401,6 +411,7 @@ pub fn generate_with(rng: &mut Rng, tier: Tier, allow_null: bool) -> Plan {
             vec![]
         },
         sibling: rng.chance(0.1),
+        silent_detours: rng.chance(0.25),
         queries,
     }
 }
@@ -888,6 +899,7 @@ struct Ctx<'a> {
     initial_values: Vec<f64>,
     memo: HashMap<(Tags, usize), (R, Option<R>)>,
     ctor: &'static str,
+    silent_detours: bool,
 }
 
 #[allow(clippy::too_many_arguments)]
@@ -1018,7 +1030,17 @@ fn probe(
     let nn = model.nodes.len();
     let mut h = Fnv::new();
     let first_ts = model.nodes[0].ts;
-    for (qi, q) in c.queries.iter().enumerate() {
+    // the look-up order: the LAST query first (it was the last date looked up on this object
+    // before the switch - whatever the object remembers about it must not survive), then all
+    // queries in plan order, ending on that same date again
+    let nq = c.queries.len();
+    let order_idx: Vec<usize> = if nq > 1 {
+        std::iter::once(nq - 1).chain(0..nq).collect()
+    } else {
+        (0..nq).collect()
+    };
+    for qi in order_idx {
+        let q = &c.queries[qi];
         let d = query_ndt(*q, c.query_ns.get(qi).copied().unwrap_or(0));
         // the names whose sensitivities are compared: all of them, or for long curves the
         // interval's neighbourhood, both ends and a spread of far nodes (a sensitivity booked
@@ -1286,6 +1308,29 @@ fn dfs(
             obs.count("reach.two_to_one_projection_of_user_variables");
         }
         probe(&next, ntags, c, &ctx, seq, obs)?;
+        if c.silent_detours {
+            // the same target order reached over each other order with no look-up in between
+            for j in 0..3u8 {
+                if j == k {
+                    continue;
+                }
+                let mut det = call(P, "Curve::clone", || sut.clone_())?;
+                let r1 = call(P, "Curve::set_ad_order", || det.set_order(order_of(j)))?;
+                let r2 = call(P, "Curve::set_ad_order", || det.set_order(order_of(k)))?;
+                if r1.is_err() || r2.is_err() {
+                    return Err(v(
+                        "set-order-error",
+                        format!("set_ad_order returned an error after switches {:?} then {} then {}", &seq[..seq.len() - 1], j, k),
+                    ));
+                }
+                let dtags = c.model.switch(c.model.switch(tags, j), k);
+                let mut dseq: Vec<u8> = seq[..seq.len() - 1].to_vec();
+                dseq.push(j);
+                dseq.push(k);
+                obs.count("op.switch.silent_detour");
+                probe(&det, dtags, c, &format!("silent-{}via{}to{}", tags.order, j, k), &dseq, obs)?;
+            }
+        }
         let mut h = Fnv::new();
         h.str(&c.model.interp);
         h.u64(c.model.nodes.len() as u64);
@@ -1297,6 +1342,28 @@ fn dfs(
         h.str(c.ctor);
         obs.state(h.finish());
         dfs(&next, ntags, depth - 1, seq, c, obs)?;
+        if c.silent_detours {
+            // ... and once IN PLACE, on the very object that has just been looked up (a clone
+            // may not carry what the object remembers): away to another order and straight
+            // back, then the probe
+            let j = (ntags.order + 1 + depth % 2) % 3;
+            if j != ntags.order {
+                let r1 = call(P, "Curve::set_ad_order", || next.set_order(order_of(j)))?;
+                let r2 = call(P, "Curve::set_ad_order", || next.set_order(order_of(ntags.order)))?;
+                if r1.is_err() || r2.is_err() {
+                    return Err(v(
+                        "set-order-error",
+                        format!("set_ad_order returned an error after switches {:?} then {} then {}", seq, j, ntags.order),
+                    ));
+                }
+                let back = c.model.switch(c.model.switch(ntags, j), ntags.order);
+                let mut dseq: Vec<u8> = seq.clone();
+                dseq.push(j);
+                dseq.push(ntags.order);
+                obs.count("op.switch.silent_detour_in_place");
+                probe(&next, back, c, &format!("inplace-{}via{}to{}", ntags.order, j, ntags.order), &dseq, obs)?;
+            }
+        }
         seq.pop();
     }
     Ok(())
@@ -1440,6 +1507,7 @@ pub fn execute(plan: &Plan, obs: &mut Obs) -> Result<(), Fail> {
         initial_values: initial,
         memo: HashMap::new(),
         ctor,
+        silent_detours: plan.silent_detours,
     };
     obs.count(&format!("setup.{}.{}", ctor, plan.setup.interp));
     if model.nodes.len() > 20 {
@@ -1496,6 +1564,7 @@ pub fn execute(plan: &Plan, obs: &mut Obs) -> Result<(), Fail> {
                 initial_values: initial2,
                 memo: HashMap::new(),
                 ctor,
+                silent_detours: false,
             };
             probe(&sut2, tags2, &mut c2, "sibling", &[], obs)?;
             // and the first curve again, after the other one has been looked up
